@@ -82,8 +82,10 @@ class LifecycleMonitor(Monitor):
             # who is it?  match by session key against every client session the harness created
             who = None
             for ce in w.clients:
-                for sess, ucl in getattr(ce, "sessions", []):
-                    if ucl.conn is not None and ucl.conn.session_key_bytes is not None and ucl.conn.session_key_bytes == client.session_key_bytes:
+                for sess, ucl, conn in getattr(ce, "sessions", []):
+                    # conn was captured at connect(): forceDisconnect() later drops the UdpClient's reference, not the fact
+                    # that this session completed the handshake
+                    if conn is not None and conn.session_key_bytes is not None and conn.session_key_bytes == client.session_key_bytes:
                         who = (ce.index, sess)
             self.owner[sid] = who
             if who is None:
@@ -142,7 +144,7 @@ EVENTS = ["connect", "handle_message", "disconnect", "update", "starting", "shut
 def connect_client(w, i):
     ce = w.client_connect(i)
     ce.session = getattr(ce, "session", 0) + 1
-    ce.sessions = getattr(ce, "sessions", []) + [(ce.session, ce.client)]
+    ce.sessions = getattr(ce, "sessions", []) + [(ce.session, ce.client, ce.client.conn)]
     ce.nsent = 0
     return ce
 
@@ -291,10 +293,18 @@ def run(tier, seed):
         plist = [(ticks, "cs")]
         bound = 2
     else:
-        ticks = tuple(range(0, 36))
+        ticks = (0, 1, 2, 3, 4, 5, 6, 7, 9, 11, 13, 15, 17, 18, 20, 24, 26, 31, 33)
         plist = [(ticks, "cs"), (ticks, "sc")]
         bound = 2
-    st = explore.explore_all("checks.c10", "scenario", plist, bound, time_budget=(240 if tier == "quick" else 3000))
+    st = explore.explore_all("checks.c10", "scenario", plist, bound, time_budget=(240 if tier == "quick" else 2400))
+    if tier == "thorough":
+        # every tick position with a single deviation (complete), in both endpoint orders
+        allticks = tuple(range(0, 40))
+        st1 = explore.explore_all("checks.c10", "scenario", [(allticks, "cs"), (allticks, "sc")], 1, time_budget=900)
+        st.merge(st1)
+        st.sig_counts = dict(getattr(st, "sig_counts", {}))
+        for k, v in getattr(st1, "sig_counts", {}).items():
+            st.sig_counts[k] = st.sig_counts.get(k, 0) + v
     acc = {}
     sig_counts = getattr(st, "sig_counts", {})
     for v in st.violations:
